@@ -18,17 +18,17 @@ ADD_FAULTS = [("solution", "rank"), ("solution", "inner"), ("objective", "rank")
               ("measures", "rank"), ("measures", "inner"), ("measures", "length"), ("measures", "nan"),
               ("measures", "inf"), ("extra", "missing"), ("extra", "unknown"), ("extra", "length"),
               ("extra", "inner"), ("extra", "flat"), ("extra", "text"), ("solution", "text"),
-              ("objective", "text"), ("measures", "text")]
-SINGLE_FAULTS = [("solution", "rank"), ("solution", "inner"), ("objective", "nan"), ("objective", "inf"),
+              ("objective", "text"), ("measures", "text"), ("extra", "objseq")]
+SINGLE_FAULTS = [("solution", "rank"), ("solution", "inner"), ("objective", "rank"), ("objective", "nan"), ("objective", "inf"),
                  ("objective", "none"), ("measures", "rank"), ("measures", "inner"), ("measures", "nan"),
                  ("measures", "ninf"), ("extra", "missing"), ("extra", "unknown"), ("extra", "inner"),
-                 ("extra", "text"), ("solution", "text"), ("measures", "text")]
+                 ("extra", "text"), ("solution", "text"), ("measures", "text"), ("extra", "objseq")]
 QUERY_FAULTS = [("measures", "rank"), ("measures", "inner"), ("measures", "nan"), ("measures", "inf"),
                 ("measures", "text")]
 TELL_FAULTS = [("objective", "length"), ("objective", "nan"), ("objective", "rank"), ("measures", "inner"),
                ("measures", "length"), ("measures", "inf"), ("extra", "missing"), ("extra", "length"),
                ("extra", "inner"), ("objective", "overflow"), ("extra", "flat"), ("extra", "text"),
-               ("objective", "text")]
+               ("objective", "text"), ("extra", "objseq")]
 # kinds for which NumPy's own semantics may make the call valid (a flat array that happens to broadcast): the call
 # is first tried on a deep copy and injected only if that copy rejects it
 DRY_RUN_KINDS = {"flat", "text"}
@@ -102,7 +102,10 @@ def corrupt(fault, sol, obj, meas, extras, layout, single, dt="f64"):
             else:
                 s1 = sol[:1] if kind == "rank" else np.concatenate([s1, s1[:1]])   # (1, d) / (d+1,)
         elif arg == "objective":
-            o1 = None if kind == "none" else bad[kind]
+            if kind == "rank":
+                o1 = [float(o1)] if fault["field"] % 2 else np.array([[o1]])       # (1,) / (1, 1) where a scalar is expected
+            else:
+                o1 = None if kind == "none" else bad[kind]
         elif arg == "measures":
             if kind == "text":
                 m1 = _text(m1, fault["field"])
@@ -115,7 +118,12 @@ def corrupt(fault, sol, obj, meas, extras, layout, single, dt="f64"):
                 m1[fault["field"] % len(m1)] = bad[kind]
         elif arg == "extra":
             names = [EXTRA_DESC[c][0] for c in layout]
-            if kind == "unknown":
+            if kind == "objseq":
+                # a sequence where a scalar object field (shape ()) expects one object: NumPy unpacks it
+                if "o" not in layout:
+                    return None
+                e1 = dict(e1, ex_o=(7, 8, 9))
+            elif kind == "unknown":
                 e1 = dict(e1, zz_unknown=0.0)
             else:
                 name = names[fault["field"] % len(names)]
@@ -162,7 +170,11 @@ def corrupt(fault, sol, obj, meas, extras, layout, single, dt="f64"):
             meas[pos, fault["field"] % meas.shape[1]] = bad[kind]
     elif arg == "extra":
         names = [EXTRA_DESC[c][0] for c in layout]
-        if kind == "unknown":
+        if kind == "objseq":
+            if "o" not in layout:
+                return None
+            extras = dict(extras, ex_o=[(t, t + 1, t + 2) for t in range(len(obj))])
+        elif kind == "unknown":
             extras = dict(extras, zz_unknown=np.zeros(len(obj)))
         else:
             name = names[fault["field"] % len(names)]
